@@ -280,9 +280,10 @@ def run(rep, tier):
     else:
         rep.ob("R5", "xdis.opcodes.opcode_313", "3.13:own-finder", False, expected="a finder that yields None lines (dis 3.13)", derived=show(f313))
     # ---------------------------------------------------------------- R4: 3.11+ line decoder (shared with C17-R3)
-    from .c17 import location_rules
-    rep.rule("R4", "3.11+ location table: per entry the code-unit count, line delta (incl. multi-byte zig-zag varints) and no-line marker used by co_lines() equal Objects/locations.md")
+    from .c17 import colines_ranges_rule, location_rules
+    rep.rule("R4", "3.11+ location table: per entry the code-unit count, line delta (incl. multi-byte zig-zag varints) and no-line marker used by co_lines() equal Objects/locations.md; the ranges co_lines() builds give each code unit its entry's line")
     n4 = location_rules(rep, T, rule="R4", which=("decode_linetable_entry",))
     rep.floor("3.11+ location-entry configurations", n4, 60)
+    colines_ranges_rule(rep, T, "R4")
     rep.assumptions = ["dis.findlinestarts of CPython 2.7, 3.6-3.13 (reference/dis_semantics.json 'line table')", "offset2line (binary search) is not decided: no sound rule formulated",
                        "the 3.11+ location table walk is decided under C17"]
